@@ -14,6 +14,10 @@ NOTE = ('Trusted: clang 14 front end, the extractor tools/theo_facts.cc, the Pyt
         'executed.')
 
 CLAIMS = {
+    'C18': ('effect/purity analysis: static-storage inventory with mutation verdicts, external-callee classification, pointer-keyed container and address-comparison lint, ownership-by-value and state-locality rules',
+            'Decides absence of shared mutable state and of nondeterminism sources over every library unit, which implies determinism '
+            'and race freedom for all call orders and interleavings (assuming a thread-safe allocator/libstdc++). It is a whole-program '
+            'structural argument, not an exploration of schedules.', '4/C18'),
     'C04': ('recogniser skeleton extracted from the parser, bounded language equality against the reference grammar, structural rules for error recording/propagation and static rules',
             'Decides, for every token sequence up to the bound (quick 9, thorough 14 tokens), that the real control flow of the parser '
             'accepts it without recording an error iff it is a sentence of the reference grammar - exhaustive within the bound, not '
